@@ -14,6 +14,7 @@ const (
 	verifLoopRequest   // the event loop has received an API request and not yet handled it
 	verifPopTake       // a stream writer is about to take the next RPC out of its queue
 	verifSendValidated // a validated message is about to be handed to the event loop
+	verifSendBatch     // a message batch is about to be handed to the event loop
 )
 
 func verifYield(int) {}
@@ -23,3 +24,5 @@ func verifObserveSendRPC(peer.ID, *RPC) {}
 func verifYieldQueue(*rpcQueue, int) {}
 
 func verifYieldMsg(*Message, int) {}
+
+func verifYieldBatch(*MessageBatch, int) {}
